@@ -43,3 +43,29 @@ Example C13_nonvacuous :
   rew [mkE MUnchanged 0 0; mkE MDeleted 0 0; mkE MReplaced 30 31; mkE MAdded 40 41] [(1, 11); (2, 12); (3, 13)] hs
   = Some ([(1, 11); (30, 31); (40, 41)], [mkHi true 200; mkHi false 1; mkHi true 202; mkHi false 3; mkHi true 300; NEW_HISTORY]).
 Proof. reflexivity. Qed.
+
+(* rebase (mod/manifest.go rebaseAddStep, Model/C13_Rebase.v): for EVERY image, old base and new base over arbitrary layer,
+   diff_id and history values and every equality test on them: when the rebase goes through, an aligned image stays aligned
+   (as many diff_ids as layers, as many non-empty history entries as layers) and every layer keeps its own diff_id - the new
+   base's pairs followed by the image's pairs beyond the old base.  Cutting the history by the NEW base's length instead of
+   the old one's (a one-identifier slip) is refuted as soon as the two bases differ in history length. *)
+From Verif Require Import Model.C13_Rebase Proofs.C13r.
+Theorem C13_rebase_aligned : forall (L D H : Type) leqb deqb heqb (i old new r : img L D H),
+  aligned L D H i -> rebase L D H leqb deqb heqb i old new = Some r -> aligned L D H r.
+Proof. exact rebase_aligned. Qed.
+Print Assumptions C13_rebase_aligned.
+Theorem C13_rebase_pairs : forall (L D H : Type) leqb deqb heqb (i old new r : img L D H),
+  rebase L D H leqb deqb heqb i old new = Some r ->
+  combine (layers _ _ _ r) (diffids _ _ _ r) =
+  combine (layers _ _ _ new) (diffids _ _ _ new) ++ skipn (length (layers _ _ _ old)) (combine (layers _ _ _ i) (diffids _ _ _ i)).
+Proof. exact rebase_pairs. Qed.
+Print Assumptions C13_rebase_pairs.
+Theorem C13_rebase_cut_by_new_length_refuted : exists (i old new r : img nat nat nat),
+  aligned nat nat nat i /\ rebase_newlen nat nat nat Nat.eqb Nat.eqb Nat.eqb i old new = Some r /\ ~ aligned nat nat nat r.
+Proof. exact rebase_newlen_refuted. Qed.
+Print Assumptions C13_rebase_cut_by_new_length_refuted.
+Example C13_rebase_nonvacuous :
+  rebase nat nat nat Nat.eqb Nat.eqb Nat.eqb (mkImg _ _ _ [1; 2; 9] [11; 12; 19] [(false, 1); (true, 7); (false, 2); (false, 9)])
+         (mkImg _ _ _ [1; 2] [11; 12] [(false, 1); (true, 7); (false, 2)]) (mkImg _ _ _ [5] [15] [(false, 5)])
+  = Some (mkImg _ _ _ [5; 9] [15; 19] [(false, 5); (false, 9)]).
+Proof. reflexivity. Qed.
